@@ -21,7 +21,7 @@ SCRATCH = "/tmp/automut"
 
 FILES = {
     "src/flp.rs": ["C05", "C01", "C02", "C16"],
-    "src/flp/gadgets.rs": ["C05", "C14", "C10"],
+    "src/flp/gadgets.rs": ["C05", "C14", "C10", "C16"],
     "src/flp/types.rs": ["C05", "C01", "C02", "C16"],
     "src/flp/types/l1boundsum.rs": ["C05", "C02", "C16", "C01"],
     "src/flp/types/dp.rs": ["C15"],
@@ -30,8 +30,8 @@ FILES = {
     "src/vdaf/prio2.rs": ["C19", "C16", "C07"],
     "src/vdaf/prio2/client.rs": ["C19"],
     "src/vdaf/prio2/server.rs": ["C19", "C16"],
-    "src/idpf.rs": ["C06", "C03", "C07", "C08"],
-    "src/field.rs": ["C09", "C13", "C07", "C11"],
+    "src/idpf.rs": ["C06", "C03", "C07", "C08", "C16"],
+    "src/field.rs": ["C09", "C13", "C07", "C11", "C01", "C16", "C05"],
     "src/field/field255.rs": ["C09", "C07", "C11", "C03"],
     "src/fp.rs": ["C09"],
     "src/fp/ops.rs": ["C09"],
@@ -42,8 +42,8 @@ FILES = {
     "src/codec.rs": ["C07", "C08"],
     "src/topology/ping_pong.rs": ["C12"],
     "src/vdaf.rs": ["C13", "C07"],
-    "src/dp.rs": ["C15"],
-    "src/dp/distributions.rs": ["C15"],
+    "src/dp.rs": ["C15", "C16"],
+    "src/dp/distributions.rs": ["C15", "C16"],
     "src/dp/rand_bigint.rs": ["C15"],
 }
 
